@@ -1052,9 +1052,9 @@ def stream_subst(ctx):
                             for _ in range(r.randint(1, 8))))
     lines, impl = [], []
     for s in strs:
-        lines += [f"c15 subst x {ptok(s)}", f"c15 subst h {ptok(s)}", f"c15 substrev {ptok(s)}"]
+        lines += [f"c15 subst x {ptok(s)}", f"c15 subst h {ptok(s)}", f"c15 substrev {ptok(s)}", f"c15 substpop {ptok(s)}"]
         h = ES.substitute_html(s)
-        impl += [ptok(ES.substitute_xml(s)), ptok(h), ptok(h)]
+        impl += [ptok(ES.substitute_xml(s)), ptok(h), ptok(h), ptok(h)]
     rep = Driver().ask(lines)
     bad = 0
     for l, a, b in zip(lines, impl, rep):
@@ -1725,6 +1725,49 @@ def stream_build(ctx, batch, n):
     ctx.count("build:requests", len(lines))
 
 
+def stream_populate(ctx):
+    """the mirror of `_populate_class_variables` (run on the generated stdlib tables) against the live class variables"""
+    import re as _re
+    ES = E()["ES"]
+    rep = Driver().ask(["c15 populate", "c15 c2e", "c15 e2c"])
+    model_alts = {}
+    dup = False
+    for t in rep[0].split(" "):
+        k, la, r_ = t.split("/")
+        dup |= unptok(k) in model_alts
+        model_alts[unptok(k)] = (frozenset(unptok(la)), unptok(r_))
+    live_alts, odd = {}, []
+    pat = ES.CHARACTER_TO_HTML_ENTITY_WITH_AMPERSAND_RE.pattern
+    for part in pat[1:-1].split("|"):
+        m = _re.fullmatch(r"(?s)(.+?)\(\?!\[(.+)\]\)", part)
+        key, la = (m.group(1), m.group(2)) if m else (part, "")
+        if "(?" in key:
+            odd.append(part)
+        ent = ES.CHARACTER_TO_HTML_ENTITY.get(key)
+        live_alts[key] = (frozenset(la), "&%s;" % ent if ent is not None else "&amp;%s;" % key)
+    ctx.case(("populate", "alternatives"))
+    ctx.count("populate:alternatives", len(live_alts))
+    if model_alts != live_alts or dup or odd:
+        diff = sorted(set(model_alts.items()) ^ set(live_alts.items()), key=lambda kv: kv[0])[:6]
+        ctx.corr_disagreements += 1
+        report(ctx, "populate-correspondence", "model and implementation disagree (alternatives of the entity regex)",
+               case={"op": "populate", "what": "alternatives", "irregular_particles": odd[:5]},
+               observed=[(ascii(k), sorted(map(ascii, v[0])), v[1]) for k, v in diff if k in live_alts],
+               model=[(ascii(k), sorted(map(ascii, v[0])), v[1]) for k, v in diff if k in model_alts], no_failing_input=True)
+    for line, live, what in ((rep[1], ES.CHARACTER_TO_HTML_ENTITY, "CHARACTER_TO_HTML_ENTITY"), (rep[2], ES.HTML_ENTITY_TO_CHARACTER, "HTML_ENTITY_TO_CHARACTER")):
+        model = {}
+        for t in line.split(" "):
+            k, v = t.split("/")
+            model[unptok(k)] = unptok(v)
+        ctx.case(("populate", what))
+        ctx.count(f"populate:{what}", len(live))
+        if model != dict(live):
+            ctx.corr_disagreements += 1
+            diff = sorted(set(model.items()) ^ set(live.items()))[:6]
+            report(ctx, "populate-correspondence", f"model and implementation disagree ({what})", case={"op": "populate", "what": what},
+                   observed=[d for d in diff if live.get(d[0]) == d[1]], model=[d for d in diff if model.get(d[0]) == d[1]], no_failing_input=True)
+
+
 def stream_corpus(ctx, batch):
     from .common import CORPUS
     d = CORPUS / "C15"
@@ -1766,6 +1809,7 @@ def run(ctx: Ctx):
     batch.flush()
     stream_call_log(ctx, ctx.n(800, 6000))
     stream_subst(ctx)
+    stream_populate(ctx)
     stream_determinism(ctx)
     stream_entity_seeds(ctx)
     if ctx.lean is not None and not ctx.lean.ok:
